@@ -86,9 +86,14 @@ class JSONRPC2Connection:
             raise EOFError()
         length = self._read_header_content_length(line)
         # Keep reading headers until we find the sentinel
-        # line for the JSON request.
+        # line for the JSON request. Header fields may come in any order.
         while line != "\r\n":
             line = self.conn.readline()
+            value = self._read_header_content_length(line)
+            if value is not None:
+                length = value
+        if length is None:
+            raise JSONRPC2ProtocolError("Missing Content-Length header")
         body = self.conn.read(length)
         log.debug(
             "RECV %s", json.dumps(json.loads(body), separators=(",", ":"), indent=2)
